@@ -17,6 +17,7 @@ import (
 	"oras.land/oras-go/v2/errdef"
 	. "oras.land/oras-go/v2/internal/zzverif/common"
 	"verif.local/engine/driver"
+	"verif.local/engine/explore"
 	"verif.local/engine/vs"
 )
 
@@ -294,3 +295,132 @@ func fileRun(c *driver.Ctx, u []fnode, ops []fop, opt string, depth int) (func()
 }
 
 func jsonMarshal(v any) ([]byte, error) { return json.Marshal(v) }
+
+// ---- concurrent operations on the file store (clause-style oracle, no transcribed model)
+
+type fconc struct {
+	name string
+	pre  []fop
+	gs   [][]fop
+}
+
+func fileConcJobs(th bool) []driver.Job {
+	u := fileUniverse()
+	push := func(n int) fop { return fop{kind: "push", node: n} }
+	cs := []fconc{
+		{"same-named-blob-twice", nil, [][]fop{{push(0)}, {push(0)}}},
+		{"two-names-same-bytes", nil, [][]fop{{push(0)}, {push(1)}, {push(2)}}},
+		{"manifest-races-its-layers", []fop{push(3), push(4)}, [][]fop{{push(5)}, {push(0)}, {push(1)}}},
+		{"unnamed-twice-and-tag", []fop{push(4), push(0), push(1)}, [][]fop{{push(3)}, {push(3)}, {push(5), {kind: "tag", node: 5, ref: "a"}}}},
+		{"bad-races-good", nil, [][]fop{{fop{kind: "badpush", node: 2}}, {push(2)}}},
+	}
+	D, nsh := 2, 2
+	if th {
+		D, nsh = 3, 8
+	}
+	var out []driver.Job
+	for _, cc := range cs {
+		for _, opt := range []string{"default", "forcecas"} {
+			for sh := 0; sh < nsh; sh++ {
+				cc, opt, sh := cc, opt, sh
+				name := fmt.Sprintf("conc/file/%s/%s/D%d/shard%d.%d", opt, cc.name, D, sh, nsh)
+				out = append(out, driver.Job{Name: name, Run: func(c *driver.Ctx) {
+					c.Explore(driver.Scenario{Name: name, Bases: []int{0, 1, 2}, Bounds: explore.Bounds{Dev: D}, Shard: sh, NShard: nsh,
+						Make: func() (func(), func(*vs.Result) *driver.Fail) { return fileConcRun(c, u, cc, opt) }})
+				}})
+			}
+		}
+	}
+	return out
+}
+
+func fileConcRun(c *driver.Ctx, u []fnode, cc fconc, opt string) (func(), func(*vs.Result) *driver.Fail) {
+	st, dir := newFile(opt)
+	for _, op := range cc.pre {
+		if err := fileApply(st, u, op); err != nil {
+			panic(err)
+		}
+	}
+	type res struct {
+		op  fop
+		err error
+	}
+	results := make([][]res, len(cc.gs))
+	body := func() {
+		done := make(chan int, len(cc.gs))
+		for gi, ops := range cc.gs {
+			gi, ops := gi, ops
+			vs.Go(func() {
+				for _, op := range ops {
+					err := fileApply(st, u, op)
+					vs.Atomic(func() { results[gi] = append(results[gi], res{op, err}) })
+				}
+				vs.Send(done, gi)
+			})
+		}
+		for range cc.gs {
+			vs.Recv(done)
+		}
+	}
+	check := func(r *vs.Result) *driver.Fail {
+		defer func() { st.Close(); os.RemoveAll(dir) }()
+		if f := driver.StdFail(r); f != nil {
+			return f
+		}
+		obs := fileObserve(st, u)
+		var rs []string
+		okPush := map[int]int{}
+		tried := map[int]int{}
+		for gi, g := range results {
+			for _, x := range g {
+				rs = append(rs, fmt.Sprintf("g%d %s=%v", gi, x.op.str(u), x.err))
+				switch x.op.kind {
+				case "push":
+					tried[x.op.node]++
+					if x.err == nil {
+						okPush[x.op.node]++
+					} else if !errors.Is(x.err, errdef.ErrAlreadyExists) && !errors.Is(x.err, file.ErrDuplicateName) {
+						return &driver.Fail{Sig: "file(" + opt + "): concurrent push of well-formed content failed with an unexpected error (" + cc.name + ")", Detail: strings.Join(rs, ", ")}
+					}
+				case "badpush":
+					if x.err == nil {
+						return &driver.Fail{Sig: "file(" + opt + "): concurrent push of mismatching content succeeded", Detail: strings.Join(rs, ", ")}
+					}
+				case "tag":
+					if x.err != nil {
+						return &driver.Fail{Sig: "file(" + opt + "): tag of content pushed by the same goroutine failed", Detail: strings.Join(rs, ", ")}
+					}
+				}
+			}
+		}
+		d := "results: " + strings.Join(rs, ", ") + "\n" + obs
+		if strings.Contains(obs, "WRONG-BYTES") {
+			return &driver.Fail{Sig: "file(" + opt + "): fetch returned bytes that do not match the descriptor after concurrent pushes", Detail: d}
+		}
+		for n, k := range tried {
+			// identical pushes: accepted at most once; none at all only when the name was materialised by a
+			// manifest push in the meantime (then every push was refused as a duplicate, checked above)
+			if okPush[n] > 1 {
+				return &driver.Fail{Sig: fmt.Sprintf("file(%s): %d of %d identical concurrent pushes were accepted (%s)", opt, okPush[n], k, cc.name), Detail: d}
+			}
+			if !strings.Contains(obs, u[n].name+":exists=true,fetch=true") {
+				return &driver.Fail{Sig: "file(" + opt + "): content whose push succeeded is not present/fetchable after quiescence (" + cc.name + ")", Detail: d}
+			}
+		}
+		// named content on disk must hold exactly its bytes
+		for n := range tried {
+			if t := u[n].desc.Annotations[ocispec.AnnotationTitle]; t != "" {
+				b, err := os.ReadFile(dir + "/" + t)
+				if err != nil || !bytes.Equal(b, u[n].bytes) {
+					return &driver.Fail{Sig: "file(" + opt + "): named file on disk differs from the pushed bytes after concurrent pushes", Detail: fmt.Sprintf("%s: %q err %v\n%s", t, b, err, d)}
+				}
+			}
+		}
+		if len(r.Trace) > 0 {
+			c.Nontriv(driver.Hash("fileconc", opt, cc.name, fmt.Sprint(r.Choices())))
+		}
+		c.Outcome(driver.Hash("fileconc", cc.name, obs, strings.Join(rs, ",")))
+		return nil
+	}
+	return body, check
+}
